@@ -1,6 +1,7 @@
 import re
 from copy import copy, deepcopy
 
+from mindsdb_sql.exceptions import ParsingException
 from mindsdb_sql.parser.ast.base import ASTNode
 from mindsdb_sql.parser.utils import indent
 from mindsdb_sql.parser.ast.select import Star
@@ -43,6 +44,9 @@ def get_reserved_words():
 class Identifier(ASTNode):
     def __init__(self, path_str=None, parts=None, *args, **kwargs):
         super().__init__(*args, **kwargs)
+        if path_str == '' and not parts:
+            # an empty quoted name in the query text: "" or ''
+            raise ParsingException('A name cannot be empty')
         assert path_str or parts, "Either path_str or parts must be provided for an Identifier"
         assert not (path_str and parts), "Provide either path_str or parts, but not both"
         if isinstance(path_str, Star) and not parts:
@@ -56,6 +60,8 @@ class Identifier(ASTNode):
     @classmethod
     def from_path_str(self, value, *args, **kwargs):
         parts = path_str_to_parts(value)
+        if not parts:
+            raise ParsingException('A name cannot be empty')
         return Identifier(parts=parts, *args, **kwargs)
 
     def parts_to_str(self):
